@@ -115,8 +115,9 @@ class HomotopyMixin(OptimizationProblem):
 
         # Homotopy loop
         self.__theta = options["theta_start"]
+        theta_accepted = self.__theta
 
-        while self.__theta <= 1.0:
+        while True:
             logger.info("Solving with homotopy parameter theta = {}.".format(self.__theta))
 
             success = super().optimize(
@@ -135,11 +136,17 @@ class HomotopyMixin(OptimizationProblem):
                     # Recompute the sparsity structure for the nonlinear model family.
                     self.clear_transcription_cache()
 
+                if self.__theta >= 1.0:
+                    # The original problem (theta = 1.0) has been solved.
+                    break
+
+                theta_accepted = self.__theta
+
             else:
                 if self.__theta == options["theta_start"]:
                     break
 
-                self.__theta -= delta_theta
+                self.__theta = theta_accepted
                 delta_theta /= 2
 
                 if delta_theta < options["delta_theta_min"]:
@@ -156,7 +163,12 @@ class HomotopyMixin(OptimizationProblem):
                         logger.info(failure_message)
                     break
 
-            self.__theta += delta_theta
+            # Never step past the original problem at theta = 1.0.
+            if self.__theta + delta_theta >= 1.0:
+                delta_theta = 1.0 - self.__theta
+                self.__theta = 1.0
+            else:
+                self.__theta += delta_theta
 
         # Post-processing
         if postprocessing:
